@@ -38,14 +38,17 @@ pub fn bytes_workload(ctx: &mut Ctx, shard: usize, nshards: usize, salt: u64, n_
         let n = gb::sdes_priv_pairs(shard, nshards, &mut |b| f(ctx, b));
         ctx.class_add("exhaustive:sdes-priv(all 65536 (length, prefix length) pairs)", n);
     } else {
-        let mut k = 0u64;
-        let want = ctx.n(4000) as u64;
-        gb::header_space(shard, nshards, 1, &mut |b| {
-            k += 1;
-            if k % 9973 == 1 && k / 9973 < want {
-                f(ctx, b)
+        // interpreter tiers: a direct sample instead of the enumeration
+        let mut s = Src::prng(mix(ctx.seed, salt.wrapping_mul(0x7177) + shard as u64));
+        let n = ctx.n(5_000).min(40);
+        gb::header_space_sample(&mut s, n, &mut |b| f(ctx, b));
+        for i in 0..n {
+            let v = if i % 2 == 0 { gb::valid_packet(&mut s) } else { gb::hostile(&mut s) };
+            if v.len() <= 512 {
+                f(ctx, &v);
             }
-        });
+        }
+        return;
     }
     let n = ctx.n(if ctx.thorough { n_thorough } else { n_quick });
     let mut s = Src::prng(mix(ctx.seed, salt.wrapping_mul(0x10001) + shard as u64));
